@@ -101,6 +101,7 @@ class Ctx:
         self.samples = []      # full runs: (flushes suspended [private, attribution only], stats.memtable_flushes,
         #                        stats.compactions, wal.synced_up_to) after each delivery
         self.seq_mismatch = None
+        self.phase = 1         # 2 = workload issued after a crash + recovery (two-phase driver)
         self.lsm = None
         self.wal = None
 
@@ -132,8 +133,8 @@ class Writer(Entity):
             n = _wal_writes(c.wal)
             if n is not None and n + 1 != seq and c.seq_mismatch is None:
                 c.seq_mismatch = (seq, n + 1)
-            rec = {"seq": seq, "w": self.w, "i": i, "kind": kind, "key": key,
-                   "value": (f"v{self.w}{i}" if kind == "put" else None),
+            rec = {"seq": seq, "w": self.w, "i": i, "kind": kind, "key": key, "phase": c.phase,
+                   "value": (f"{'v' if c.phase == 1 else 'x'}{self.w}{i}" if kind == "put" else None),
                    "done": False, "t0": self.now.nanoseconds, "t1": None,
                    "begin_idx": c.n, "end_idx": None,
                    "flush_active_at_begin": _flush_active(lsm)}
@@ -237,7 +238,12 @@ def crash_and_recover(c):
 # oracle
 # ---------------------------------------------------------------------------
 def rt_before(o, d):
-    """o returned before d began (real-time order of the calls; the only order a client can know)."""
+    """o returned before d began (real-time order of the calls; the only order a client can know).
+    Every call of the workload that ran before a crash (phase 1) precedes every call issued after the
+    recovery (phase 2): the crash killed the phase-1 processes."""
+    po, pd = o.get("phase", 1), d.get("phase", 1)
+    if po != pd:
+        return po < pd
     if o["w"] == d["w"]:
         return o["i"] < d["i"]
     return o["end_idx"] is not None and o["end_idx"] < d["begin_idx"]
@@ -635,6 +641,237 @@ def _merge_violation(run, fp, desc, rep, size, count):
         run.violations[fp] = (desc, rep)
 
 
+# ---------------------------------------------------------------------------
+# two-phase driver: workload, crash at k, recover, SECOND workload on the recovered tree, crash at j, recover
+# ---------------------------------------------------------------------------
+TP_CFG = (2, ("tiered", 2, 2))
+
+
+def build_phase2(c, writers2, t0_ns):
+    """Fresh Simulation over the same LSMTree / WriteAheadLog objects, clock starting at the crash instant;
+    the phase-1 simulation (with its dead, suspended processes) is simply never run again."""
+    c.phase, c.n, c.deliveries, c.samples = 2, 0, [], []
+    ents = [Writer(f"w{w}", c, w, ops) for w, (_off, ops) in enumerate(writers2)]
+    sim = Simulation(start_time=Instant(int(t0_ns)), entities=[c.lsm, c.wal] + ents)
+    for e, (off, _ops) in zip(ents, writers2):
+        sim.schedule(Event(time=Instant(int(t0_ns + off)), event_type="start", target=e))
+    return sim
+
+
+def run_two_phase(policy, cfg, writers1, k, t0_ns, writers2, j, observe=False):
+    """Phase 1 to delivery k, crash(), recover_from_crash(); phase 2 (writers2) to delivery j (None: to the
+    end, observed).  Returns (keepalive, ctx, synced1, crash1_info, outcome)."""
+    sim1, c = build(policy, cfg, writers1)
+    run_to(sim1, k)
+    synced1 = c.wal.synced_up_to
+    info1 = c.lsm.crash()
+    c.lsm.recover_from_crash()
+    if writers2 is None:
+        return (sim1,), c, synced1, info1, "paused"
+    sim2 = build_phase2(c, writers2, t0_ns)
+    if observe:
+        outcome = run_full(sim2, c, j)
+    else:
+        run_to(sim2, j)
+        outcome = "paused"
+    return (sim1, sim2), c, synced1, info1, outcome
+
+
+def durable_two_phase(ops1, synced1, nw1, ops2, synced2, nw2, policy):
+    """Phase-1 durability is frozen at the first crash; phase-2 ops: watermark at the second crash, or the
+    policy's acknowledgement contract counted from the recovery (writes_since_sync restarts at a crash)."""
+    dur = durable_seqs(ops1, synced1, policy, nw1)
+    dur |= {o["seq"] for o in ops2 if o["seq"] <= synced2}
+    if policy == "every":
+        dur |= {o["seq"] for o in ops2 if o["done"]}
+    elif policy == "batch2" and nw2 == 1:
+        base = len(ops1)
+        closed = [o["seq"] for o in ops2 if o["done"] and (o["seq"] - base) % BATCH_N == 0]
+        if closed:
+            dur |= {o["seq"] for o in ops2 if o["seq"] <= max(closed)}
+    return dur
+
+
+def tp_eval(policy, cfg, writers1, k, t0, ops1, writers2, j, ops2_full):
+    """One (phase-1 crash state, phase-2 workload, phase-2 crash point): returns (violations, res, ops)."""
+    keep, c, synced1, _info1, _o = run_two_phase(policy, cfg, writers1, k, t0, writers2, j)
+    ops2 = view_at(ops2_full, j)
+    got2 = [o for o in c.ops if o.get("phase") == 2]
+    if [(o["kind"], o["key"], o["done"]) for o in got2] != [(o["kind"], o["key"], o["done"]) for o in ops2] \
+            or [(o["kind"], o["key"]) for o in c.ops if o.get("phase") == 1] != [(o["kind"], o["key"]) for o in ops1]:
+        raise RuntimeError(f"nondeterministic two-phase re-execution: {policy} {writers1} k={k} {writers2} j={j}")
+    res = crash_and_recover(c)
+    ops = ops1 + ops2
+    res["dur"] = durable_two_phase(ops1, synced1, len(writers1), ops2, res["synced"], len(writers2), policy)
+    res["synced1"] = synced1
+    out = []
+    for clause, _key, _got, d, desc in classify(ops, res):
+        if d is None:
+            fp = f"LSMTree/{clause}" if "/" in clause else f"LSMTree/{clause}/any"
+        else:
+            fp = f"LSMTree/{clause}/second-crash-phase{d.get('phase', 1)}-op"
+            desc += (f" [two-phase: first crash after delivery {k} (synced_up_to={synced1}), recovery, second workload, "
+                     f"second crash after its delivery {j}]")
+        out.append((fp, desc))
+    del keep
+    return out, res, ops
+
+
+def tp_select(job):
+    """Pass 1: the phase-1 crash states of one phase-1 workload at which crash() really discards an unsynced
+    log tail.  class A = entries survive in the log (recovery replays something; the log has a hole in its
+    sequence numbers), class B = the log is empty after the crash."""
+    policy, cfg, ops0 = job
+    writers1 = ((0, ops0),)
+    sim, c0 = build(policy, cfg, writers1)
+    if run_full(sim, c0, None) != "done":
+        return {"states": [], "exec": 1, "trans": c0.n, "scanned": 0}
+    out = {"states": [], "exec": 1, "trans": c0.n, "scanned": 0}
+    for k in range(c0.n + 1):
+        keep, c, synced1, info1, _o = run_two_phase(policy, cfg, writers1, k, 0, None, None)
+        out["exec"] += 1
+        out["trans"] += k
+        out["scanned"] += 1
+        lost = info1.get("wal_entries_lost", 0) if isinstance(info1, dict) else 0
+        if lost <= 0:
+            continue
+        ops1 = view_at(c0.ops, k)
+        t0 = c0.deliveries[k - 1][0] if k > 0 else 0
+        cls = "A" if c.wal.size > 0 else "B"
+        canon = digest((policy, cfg, tuple((o["kind"], o["key"], o["done"]) for o in ops1), synced1, c.wal.size,
+                        image(c.lsm), c0.samples[k - 1][1:3] if k > 0 else None))
+        out["states"].append({"policy": policy, "cfg": cfg, "writers1": writers1, "k": k, "t0": t0, "ops1": ops1,
+                              "class": cls, "canon": canon, "lost": lost})
+    return out
+
+
+def tp_phase2_workloads(st, max_ops_two_writers):
+    """Phase-2 workloads for one state: every solo sequence of <= 2 ops; for class A also two writers with
+    1+1 ops (total <= max_ops_two_writers), writer 1 starting at 0 and in every window of writer 0's solo run."""
+    for n in (1, 2):
+        for ops in op_sequences(n):
+            yield ((0, ops),)
+    if st["class"] != "A" or max_ops_two_writers < 2:
+        return
+    for op0 in OPKINDS:
+        keep, c, _s, _i, _o = run_two_phase(st["policy"], st["cfg"], st["writers1"], st["k"], st["t0"],
+                                            ((0, (op0,)),), None, observe=True)
+        ts = sorted({t - st["t0"] for (t, _ty, _tg) in c.deliveries})
+        offs = sorted({0} | {(x + y) // 2 for x, y in zip(ts, ts[1:])})
+        del keep
+        for op1 in OPKINDS:
+            for off in offs:
+                yield ((0, (op0,)), (off, (op1,)))
+
+
+def tp_explore(st):
+    """Pass 2: every phase-2 workload x every phase-2 crash point j on one phase-1 crash state."""
+    policy, cfg, writers1, k, t0, ops1 = st["policy"], st["cfg"], st["writers1"], st["k"], st["t0"], st["ops1"]
+    stats = new_stats()
+    for writers2 in tp_phase2_workloads(st, 2):
+        keep, c0, synced1, _i, outcome = run_two_phase(policy, cfg, writers1, k, t0, writers2, None, observe=True)
+        ops2_full = [o for o in c0.ops if o.get("phase") == 2]
+        n2 = c0.n
+        stats["exec"] += 1
+        stats["trans"] += k + n2
+        stats["workloads"] += 1
+        del keep
+        if outcome != "done" or any(not o["done"] for o in ops2_full):
+            stats["horizon"] += 1
+            continue
+        for j in range(n2 + 1):
+            viol, res, ops = tp_eval(policy, cfg, writers1, k, t0, ops1, writers2, j, ops2_full)
+            stats["exec"] += 1
+            stats["trans"] += k + j
+            ops2 = [o for o in ops if o.get("phase") == 2]
+            synced2 = res["synced"]
+            if any(o["seq"] <= synced2 for o in ops2):
+                stats["nontriv"] += 1   # a phase-2 write was synced on top of a log that lost its tail
+            stats["states"].add(digest((st["canon"], tuple((o["kind"], o["key"], o["done"]) for o in ops2), synced2,
+                                        res["info"]["wal_size_before"], res["img1"])))
+            cls = []
+            for ki, key in enumerate(KEYS):
+                allowed, durable = allowed_values(ops, res["dur"], key)
+                got = res["img1"][ki]
+                cls.append("BAD" if got not in allowed else ("nodur" if not durable else
+                           ("phase%d-durable" % max(o.get("phase", 1) for o in durable if o["value"] == got)
+                            if any(o["value"] == got for o in durable) else "newer-undurable")))
+            stats["outcomes"].add((tuple(cls), st["class"]))
+            for fp, desc in viol:
+                size = (len(ops1) + len(ops2_full), len(writers2), k + j)
+                stats["viol_count"][fp] = stats["viol_count"].get(fp, 0) + 1
+                old = stats["viol"].get(fp)
+                if old is None or size < old[2]:
+                    stats["viol"][fp] = (desc, {"two_phase": True, "policy": policy, "cfg": cfg, "writers": writers1,
+                                                "k": k, "t0": t0, "writers2": writers2, "j": j,
+                                                "synced_up_to_first_crash": synced1, "synced_up_to": synced2,
+                                                "image": res["img1"]}, size)
+            if len(stats["samples"]) < 1 and st["class"] == "A" and len(writers2) == 2 and j == n2 // 2:
+                stats["samples"].append({"policy": policy, "phase1": writers1, "first_crash_after_delivery": k,
+                                         "log_entries_lost_at_first_crash": st["lost"], "phase2": writers2,
+                                         "second_crash_after_delivery": j, "recovered": res["img1"],
+                                         "violations": [v[0] for v in viol]})
+    return stats
+
+
+def run_two_phase_driver(run, name, policies, max_ops1, keysym, seed):
+    t0 = time.time()
+    d = run.driver(name, {"policies": list(policies), "(memtable_size,(compaction,trigger,max_levels))": [TP_CFG],
+                          "phase1": f"1 writer, <= {max_ops1} ops" + (", key symmetry (first op on a)" if keysym else ""),
+                          "phase1_crash_points": ("every k at which crash() discards >= 1 unsynced log entry; class A = "
+                                                  "log non-empty after the crash (every such k), class B = log empty "
+                                                  "(one k per distinct public crash state)"),
+                          "phase2": ("every solo sequence of <= 2 ops; class A also 2 writers x 1 op each, writer 1 at "
+                                     "0 and in every window of writer 0's solo run"),
+                          "phase2_crash_points": "every j in [0, N2]", "horizon_events": MAX_EVENTS})
+    jobs = []
+    for policy in policies:
+        for n in range(1, max_ops1 + 1):
+            for ops0 in op_sequences(n):
+                if keysym and ops0[0][1] != "a":
+                    continue
+                jobs.append((policy, TP_CFG, ops0))
+    states, seen_b = [], set()
+    scanned = lost_states = 0
+    for r in pmap(tp_select, rotate(jobs, seed)):
+        d.executions += r["exec"]
+        d.transitions += r["trans"]
+        scanned += r["scanned"]
+        for st in r["states"]:
+            lost_states += 1
+            if st["class"] == "B":
+                if st["canon"] in seen_b:
+                    continue
+                seen_b.add(st["canon"])
+            states.append(st)
+    # deterministic order independent of worker scheduling
+    states.sort(key=lambda st: (st["policy"], repr(st["writers1"]), st["k"]))
+    sset, outcomes = set(), set()
+    extra = {"phase1_crash_points_scanned": scanned, "phase1_crash_points_losing_a_log_tail": lost_states,
+             "phase1_states_explored_class_A(log survives with a hole)": sum(1 for s in states if s["class"] == "A"),
+             "phase1_states_explored_class_B(log empty)": sum(1 for s in states if s["class"] == "B"),
+             "phase2_workloads": 0, "horizon_runs": 0}
+    for st in pmap(tp_explore, rotate(states, seed), ordered=False):
+        d.executions += st["exec"]
+        d.transitions += st["trans"]
+        d.nontrivial += st["nontriv"]
+        sset |= st["states"]
+        outcomes |= st["outcomes"]
+        extra["phase2_workloads"] += st["workloads"]
+        extra["horizon_runs"] += st["horizon"]
+        for fp, (desc, rep, size) in st["viol"].items():
+            _merge_violation(run, fp, desc, rep, size, st["viol_count"].get(fp, 1))
+        if len(d.samples) < 3:
+            d.samples.extend(st["samples"][: 3 - len(d.samples)])
+    d.states = len(sset)
+    d.outcomes = len(outcomes)
+    d.extra.update(extra)
+    if extra["horizon_runs"]:
+        d.exhaustive = False
+        d.caps.append(f"{extra['horizon_runs']} phase-2 workloads did not finish within the horizon")
+    d.wall_s = time.time() - t0
+
+
 def main(tier, seed, only=None):
     _BEST.clear()
     run = Run(PID, tier, seed, "fault_enumeration",
@@ -650,8 +887,11 @@ def main(tier, seed, only=None):
                            "returned under a policy whose contract makes return imply sync (SyncEveryWrite; "
                            "SyncOnBatch(n) for the j-th call of a single writer, j multiple of n); begin order "
                            "= log append order (cross-checked with wal.stats.writes)",
-                           "operations on one key are ordered by log sequence (= begin order); with the library's "
-                           "constant latencies memtable application order equals log order",
+                           "operations on one key are ordered only by the real-time order of the calls (X returned "
+                           "before D began); overlapping calls may take effect in either order",
+                           "two-phase driver: the workload after the first recovery runs in a fresh Simulation over the "
+                           "SAME LSMTree/WriteAheadLog objects, starting at the crash instant (the crashed processes "
+                           "are never resumed); durability of phase-1 ops is frozen at the first crash",
                            "a crash kills the writer processes: the simulation is not resumed after recovery",
                            "private attribute _immutable_memtables is read only to name the window in fingerprints"])
     if tier == "quick":
@@ -665,6 +905,11 @@ def main(tier, seed, only=None):
         if only and name not in only:
             continue
         run_driver(run, name, policy, cfgs, max_ops, ties, seed, keysym=keysym)
+    if not only or "two-phase" in only:
+        if tier == "quick":
+            run_two_phase_driver(run, "two-phase", ("batch2", "periodic"), 3, True, seed)
+        else:
+            run_two_phase_driver(run, "two-phase", POLICIES, 4, False, seed)
     return run.finish()
 
 
@@ -675,8 +920,54 @@ def _thaw(x):
     return tuple(_thaw(i) for i in x) if isinstance(x, list) else x
 
 
+def _replay_two_phase(data):
+    rep = data["replay"]
+    policy, cfg, w1, k, t0 = rep["policy"], _thaw(rep["cfg"]), _thaw(rep["writers"]), rep["k"], rep["t0"]
+    w2, j = _thaw(rep["writers2"]), rep["j"]
+    print(f"two-phase: policy={policy} (memtable_size,(compaction,trigger,max_levels))={cfg}")
+    for w, (off, ops) in enumerate(w1):
+        print(f"  phase 1 writer {w}: starts at {off} ns, ops = {[f'{kd} {ky}' for kd, ky in ops]}")
+    sim, c0 = build(policy, cfg, w1)
+    run_full(sim, c0, None)
+    ops1 = view_at(c0.ops, k)
+    for o in ops1:
+        print(f"    op seq={o['seq']} {o['kind']} {o['key']} value={o['value']!r} returned={o['done']}")
+    keep, c, synced1, info1, _o = run_two_phase(policy, cfg, w1, k, t0, None, None)
+    print(f"  first crash after delivery {k} (t={t0}ns): wal.synced_up_to={synced1}; crash() -> {info1}; "
+          f"after recover_from_crash(): wal.size={c.wal.size} image={dict(zip(KEYS, image(c.lsm)))}")
+    del keep
+    for w, (off, ops) in enumerate(w2):
+        print(f"  phase 2 writer {w}: starts {off} ns after the crash instant, ops = {[f'{kd} {ky}' for kd, ky in ops]}")
+    keep, cf, _s, _i, _o = run_two_phase(policy, cfg, w1, k, t0, w2, None, observe=True)
+    ops2_full = [o for o in cf.ops if o.get("phase") == 2]
+    for i, ((t, _ty, tg), sm) in enumerate(zip(cf.deliveries[:j], cf.samples[:j]), 1):
+        print(f"    phase-2 delivery {i:3d} t={t:>9d}ns resumes {tg!s:<4s} flushes_suspended={sm[0]} "
+              f"stats.memtable_flushes={sm[1]} stats.compactions={sm[2]} wal.synced_up_to={sm[3]}")
+    del keep
+    viol, res, ops = tp_eval(policy, cfg, w1, k, t0, ops1, w2, j, ops2_full)
+    for o in ops:
+        if o.get("phase") == 2:
+            print(f"    op seq={o['seq']} {o['kind']} {o['key']} value={o['value']!r} returned={o['done']}")
+    print(f"  second crash after phase-2 delivery {j}: wal.synced_up_to={res['synced']} wal.size={res['info']['wal_size_before']}")
+    print(f"  crash() -> {res['info']['crash']}; recover_from_crash() -> {res['info']['recover']}")
+    print(f"  image after crash+recover         : {dict(zip(KEYS, res['img1']))}")
+    print(f"  image after recover again         : {dict(zip(KEYS, res['img1b']))}")
+    print(f"  image after another crash+recover : {dict(zip(KEYS, res['img2']))}")
+    for key in KEYS:
+        allowed, durable = allowed_values(ops, res["dur"], key)
+        print(f"  key {key!r}: durable ops = {[o['seq'] for o in durable]}; allowed after recovery = {sorted(allowed, key=repr)}")
+    for fp, desc in viol:
+        print(f"  !! {fp}: {desc}")
+    want = data.get("fingerprint")
+    if want is not None:
+        return 1 if any(fp == want for fp, _ in viol) else 0
+    return 1 if viol else 0
+
+
 def replay(data):
     rep = data["replay"]
+    if rep.get("two_phase"):
+        return _replay_two_phase(data)
     policy, cfg, writers, k = rep["policy"], _thaw(rep["cfg"]), _thaw(rep["writers"]), rep["k"]
     print(f"policy={policy} (memtable_size,(compaction,trigger,max_levels))={cfg}")
     for w, (off, ops) in enumerate(writers):
